@@ -39,6 +39,10 @@ type declT struct {
 	outKind int // -1 none
 	cached  bool
 	upd     bool // the declaration is reached through UpdateInputs from a different initial input
+	// shrunk: the controller starts with a wider declaration (the undeclared type, the other namespace and the
+	// other id are inputs too), reads every target once while that is in force, then narrows its inputs to the
+	// declaration under test with UpdateInputs: nothing remembered from before may widen what is allowed now
+	shrunk bool
 }
 
 func (d declT) String() string {
@@ -54,6 +58,9 @@ func (d declT) String() string {
 	}
 	if d.upd {
 		c += "+via-UpdateInputs"
+	}
+	if d.shrunk {
+		c += "+shrunk-after-reads"
 	}
 	return fmt.Sprintf("%s/%s/out-%s%s", kinds[d.kind], id, out, c)
 }
@@ -340,7 +347,26 @@ func runCase(x *explore.X, d declT, op string, t target, owner string) (steps in
 				}
 				p.InputsV = []controller.Input{init}
 			}
+			if d.shrunk {
+				p.InputsV = []controller.Input{in,
+					{Namespace: hx.NS, Type: tUn, Kind: controller.InputStrong},
+					{Namespace: "ns2", Type: tIn, Kind: controller.InputStrong},
+				}
+				if d.byID {
+					p.InputsV = append(p.InputsV, controller.Input{Namespace: hx.NS, Type: tIn, ID: optional.Some(resource.ID("b")), Kind: controller.InputStrong})
+				}
+			}
 			p.OnEvent = func(ctx context.Context, r controller.Runtime, _ int) error {
+				if d.shrunk && !done {
+					for _, wt := range targets {
+						for _, wop := range []string{"Get", "GetUncached", "List", "ListUncached", "ContextWithTeardown"} {
+							doOp(ctx, r, st, wop, wt) //nolint:errcheck
+						}
+					}
+					if err := r.UpdateInputs([]controller.Input{in}); err != nil {
+						panic(err)
+					}
+				}
 				if d.upd && !done {
 					if err := r.UpdateInputs([]controller.Input{in}); err != nil {
 						panic(err)
@@ -445,6 +471,9 @@ func build(tier string) []explore.Scenario {
 					out = append(out, scenario(declT{q: kind >= 3, kind: kind, byID: byID, outKind: outKind, cached: cached}))
 					if kind < 3 && !cached {
 						out = append(out, scenario(declT{kind: kind, byID: byID, outKind: outKind, upd: true}))
+					}
+					if kind < 3 && (outKind == 0 || tier == "thorough") {
+						out = append(out, scenario(declT{kind: kind, byID: byID, outKind: outKind, cached: cached, shrunk: true}))
 					}
 				}
 			}
